@@ -7,19 +7,28 @@ package persistence
 
 // The persister is told about machine changes after they happened; it is assumed not to modify the machine it is shown
 // (no modifies clause) and may fail arbitrarily.
+// persistMayFail(): whether the persister may fail in the situation under consideration (an uninterpreted constant: contracts that
+// describe behaviour in the absence of persistence failures are conditional on its negation).
+//@ ghost func persistMayFail() bool
 //@ interface Persister
 //@   method ChannelCreated
 //@     requires recv != nil
+//@     ensures !persistMayFail() ==> result == nil
 //@   method ChannelRemoved
 //@     requires recv != nil
+//@     ensures !persistMayFail() ==> result == nil
 //@   method Staged
 //@     requires recv != nil
+//@     ensures !persistMayFail() ==> result == nil
 //@   method SigAdded
 //@     requires recv != nil
+//@     ensures !persistMayFail() ==> result == nil
 //@   method Enabled
 //@     requires recv != nil
+//@     ensures !persistMayFail() ==> result == nil
 //@   method PhaseChanged
 //@     requires recv != nil
+//@     ensures !persistMayFail() ==> result == nil
 //@ end
 
 // ---------------------------------------------------------------------------
